@@ -547,6 +547,14 @@ class StmtMixin:
                             nxt.append(s2)
                             continue
                         base, idx = vals
+                        if isinstance(base, VOpt) and base.inner[0] == 'dict':
+                            # optional dictionary: None is not subscriptable
+                            s2, e0 = self.guard(s2, z3.Not(base.is_none()), 'builtins:TypeError')
+                            if e0 is not None:
+                                nxt.append(e0)
+                            if s2 is None:
+                                continue
+                            base = base.some()
                         if not isinstance(base, VDict):
                             self.unsupported(n, 'del on %r' % (base,))
                         ok, ex = self.guard(s2, self.dict_has(s2, base, idx), 'builtins:KeyError')
@@ -960,6 +968,8 @@ class StmtMixin:
             return out
         if isinstance(it, VList):
             it = self.list_as_seq(st, it)
+        if isinstance(it, VDict):
+            it = VFunc('dictiter', dict=it, mode='keys')        # iterating a dict / set visits its keys
         if isinstance(it, VFunc) and it.kind == 'dictiter':
             return self.for_over_dict(st, n, it, ordinal, invs)
         if isinstance(it, (VSeq, VBytes)):
